@@ -167,7 +167,7 @@ fn steer<M: ModelSet>(
             }
             Goal::ExitCarry => {
                 // lower + scale*cum must wrap: cum > (2^S - lower)/scale
-                let dist = (smax - lower) + 1; // 2^S - lower, fits unless lower == 0
+                let dist = (smax - lower).saturating_add(1); // 2^S - lower (saturating for lower == 0 at S = 128)
                 let c0 = dist / scale.max(1) + 1;
                 for dc in 0..3u128 {
                     let cum = c0 + dc;
